@@ -91,6 +91,30 @@ func (r *Run) oblige(fr *Frame, kind, sub, name string, reach Term, goal Term, p
 		Name: funcKey(top.fn) + "/" + name, Kind: kind, Sub: sub, Func: funcKey(top.fn), Props: props,
 		Pos: r.posString(pos), Text: text, mark: r.ctx.Mark(), hyps: []Term{reach}, goal: goal, ctx: r.ctx,
 	}
+	if (kind == "pre" || kind == "assert") && !reach.IsTrue() {
+		// vacuity guard: the program point itself must be reachable under the assumptions made so far
+		site := name
+		if k := strings.LastIndex(site, "."); k > 0 && kind == "pre" {
+			site = site[:k]
+		}
+		for strings.Count(site, ".") > 0 && kind == "pre" {
+			// pre@callee#k.label.part -> pre@callee#k
+			k := strings.LastIndex(site, ".")
+			if strings.Contains(site[:k], "#") {
+				site = site[:k]
+			} else {
+				break
+			}
+		}
+		if r.coverSites == nil {
+			r.coverSites = map[string]bool{}
+		}
+		if !r.coverSites[site] {
+			r.coverSites[site] = true
+			r.obls = append(r.obls, &Obligation{Name: funcKey(top.fn) + "/reach@" + site, Kind: "cover", Func: funcKey(top.fn), Props: props,
+				Pos: r.posString(pos), Text: "this program point is reachable (otherwise the obligations here hold vacuously)", mark: r.ctx.Mark(), hyps: []Term{reach}, goal: tFalse, ctx: r.ctx, Cover: true})
+		}
+	}
 	r.obls = append(r.obls, o)
 	// later code may assume it (execution would have panicked / the caller must have ensured it)
 	r.ctx.Assert(Implies(reach, goal))
